@@ -213,7 +213,18 @@ func (r *Result) Known(class, what string) {
 func (r *Result) Violate(kind, summary string, replay map[string]any) {
 	r.mu.Lock()
 	defer r.mu.Unlock()
-	if len(r.Violations) >= 5 {
+	// at most 5 replays of a kind; a correspondence mismatch never uses up the room of a property violation
+	same := 0
+	for _, v := range r.Violations {
+		if v.Kind == kind {
+			same++
+		}
+	}
+	limit := 5
+	if kind != "impl-violates-property" {
+		limit = 3
+	}
+	if same >= limit {
 		return
 	}
 	os.MkdirAll(r.replayDir, 0o755)
@@ -226,6 +237,19 @@ func (r *Result) Violate(kind, summary string, replay map[string]any) {
 	os.WriteFile(path, data, 0o644)
 	_, noInput := replay["no_failing_input_found"]
 	r.Violations = append(r.Violations, Violation{Kind: kind, Summary: summary, Replay: path, NoInput: noInput})
+}
+
+// Full reports whether enough property violations with concrete inputs have been collected to stop exploring.
+func (r *Result) Full() bool {
+	r.mu.Lock()
+	defer r.mu.Unlock()
+	n := 0
+	for _, v := range r.Violations {
+		if v.Kind == "impl-violates-property" {
+			n++
+		}
+	}
+	return n >= 5
 }
 
 func (r *Result) Note(s string) {
